@@ -117,11 +117,15 @@ def decide(chk, rule, name, m, fname, nin, spec, care=None, what=""):
         a = bdd.sat_one(diff)
         arg = witness_value(a, nin)
         total = {k: a.get(k, 0) for k in range(nin)}
+        hidden = {k: v for k, v in a.items() if k >= 512}
+        total.update(hidden)
         got, exp = concrete(bv, bits, total), concrete(bv, want, total)
         def s(v, n):
             return v - (1 << n) if v >> (n - 1) else v
-        chk.ob(rule, name, False, "%s: argument 0x%x gives %d, the definition gives %d" %
-               (what or fname, arg, s(got, len(bits)), s(exp, len(want))), fn.loc, fname)
+        chk.ob(rule, name, False, "%s: argument 0x%x gives %d, the definition gives %d%s" %
+               (what or fname, arg, s(got, len(bits)), s(exp, len(want)),
+                " (for some content of the static objects the function reads: the result is not a function of the argument)" if hidden else ""),
+               fn.loc, fname)
 
 
 def static_assert_witness(chk, seed, tier):
@@ -210,6 +214,13 @@ def run(chk):
                         "if a helper converts through floating point: IEEE-754 binary32/binary64 and the default rounding mode (round to nearest even)"]
     m = build.load_unit("librfn/bitops.c")
     chk.note_unit(m)
+    # each of the four is a FUNCTION of its argument: nothing remembered from earlier calls may reach the result
+    from .purity import check_no_static_influence
+    chk.rule("B4", "bitcnt / clz / ctz / ilog2 keep no state between calls: no value read from a mutable static object reaches the result or a branch")
+    for nm in ("bitcnt", "clz", "ctz", "ilog2"):
+        if m.has_fn(nm):
+            check_no_static_influence(chk, "B4.stateless", m, m.fn(nm),
+                                      "the result then depends on the arguments of earlier calls, not only on x")
     decide(chk, "B1.bitcnt", "bitcnt", m, "bitcnt", 32, spec_popcount)
     decide(chk, "B1.clz", "clz", m, "clz", 32, spec_clz)
     decide(chk, "B1.ctz", "ctz", m, "ctz", 32, spec_ctz)
